@@ -35,7 +35,7 @@
 (***************************************************************************)
 EXTENDS LCDSearch
 
-CONSTANTS KTab,                \* kernel table: kid |-> [n, cyc, np]   (see LCDSearch!Build)
+CONSTANTS KTab(_),             \* kernel table: kid |-> [n, cyc, np]   (see LCDSearch!Build)
           DeadlineTestFirst    \* BOOLEAN, named deviation F11
 
 VARIABLES par,       \* [kid, n, nw, to]: kernel id and length, number of workers (cpu_count()), to = (timeout # -1); never changes
@@ -53,8 +53,8 @@ vars == <<par, wst, wpos, shared, cpc, expired, timedOut, copied, result, joined
 K      == par.n
 W      == 0..(par.nw - 1)
 Sl(w)  == Slice(K, par.nw, w)
-Cyc    == KTab[par.kid].cyc
-Full   == FullResult(KTab[par.kid])
+Cyc    == KTab(par.kid).cyc
+Full   == FullResult(KTab(par.kid))
 Alive  == { w \in W : wst[w] = "run" }
 Cut    == \E w \in W : wst[w] = "killed"      \* the search was cut short: a worker was killed
 Done   == cpc = "done"
